@@ -41,6 +41,7 @@ type RigSpec struct {
 	Window     int    `json:"window"`
 	Theta      int    `json:"theta"` // plant threshold
 	Algo       string `json:"algo"`  // direct | pid
+	TempMdeg   int    `json:"tempMdeg,omitempty"` // sensor reading (default 45000; the linear curve spans 30..70 degrees)
 }
 
 type Rig struct {
@@ -86,12 +87,16 @@ func newRig(ctx *Ctx, spec RigSpec) *Rig {
 
 	// ---- sensor
 	sid := uniqueId("rigsensor")
+	temp := "45000"
+	if spec.TempMdeg != 0 {
+		temp = strconv.Itoa(spec.TempMdeg)
+	}
 	switch spec.SensorKind {
 	case "hwmon":
-		d.Mem[r.SensPath] = "45000"
+		d.Mem[r.SensPath] = temp
 		r.Sensor, _ = sensors.NewSensor(configuration.SensorConfig{ID: sid, HwMon: &configuration.HwMonSensorConfig{Platform: "rig", Index: 1, TempInput: r.SensPath}})
 	case "file":
-		d.Mem[r.SensPath] = "45000"
+		d.Mem[r.SensPath] = temp
 		r.Sensor, _ = sensors.NewSensor(configuration.SensorConfig{ID: sid, File: &configuration.FileSensorConfig{Path: r.SensPath}})
 	default:
 		_ = os.WriteFile(r.state("sensor.out"), []byte("45000\n"), 0644)
@@ -99,7 +104,8 @@ func newRig(ctx *Ctx, spec RigSpec) *Rig {
 		cmdScript(r.state("sensor.sh"), "read code < "+r.state("sensor.code")+"; cat "+r.state("sensor.out")+"; exit $code")
 		r.Sensor, _ = sensors.NewSensor(configuration.SensorConfig{ID: sid, Cmd: &configuration.CmdSensorConfig{Exec: r.state("sensor.sh")}})
 	}
-	r.Sensor.SetMovingAvg(45000)
+	tv, _ := strconv.Atoi(temp)
+	r.Sensor.SetMovingAvg(float64(tv))
 	sensors.RegisterSensor(r.Sensor)
 
 	// ---- curve
@@ -117,13 +123,24 @@ func newRig(ctx *Ctx, spec RigSpec) *Rig {
 		}
 		return mk(configuration.CurveConfig{ID: uniqueId("rigfn"), Function: &configuration.FunctionCurveConfig{Type: typ, Curves: ids}})
 	}
-	switch spec.CurveKind {
-	case "pid":
+	switch {
+	case spec.CurveKind == "pid":
 		r.Curve = pid()
-	case "function-linear-pid":
+	case spec.CurveKind == "function-linear-pid":
 		r.Curve = fn("maximum", lin(), pid())
-	case "function-function":
+	case spec.CurveKind == "function-function":
 		r.Curve = fn("average", fn("sum", lin()), fn("maximum", pid(), lin()))
+	case strings.HasPrefix(spec.CurveKind, "fn:"):
+		// fn:<type>:<members>  with members in {pid+pid, lin+pid, nested-pid}
+		parts := strings.SplitN(spec.CurveKind, ":", 3)
+		switch parts[2] {
+		case "pid+pid":
+			r.Curve = fn(parts[1], pid(), pid())
+		case "nested-pid":
+			r.Curve = fn(parts[1], fn(parts[1], pid()), fn("maximum", pid()))
+		default:
+			r.Curve = fn(parts[1], lin(), pid())
+		}
 	default:
 		r.Curve = lin()
 	}
